@@ -348,6 +348,34 @@ def tr_basic(docs):
     return basic_stop, basic_set
 
 
+def cell_decls(docs):
+    """declared type of each static cell: the out-of-line definition (top-level VarDecl) and the in-class declaration
+    must agree"""
+    defs, incls = {}, {}
+    for d in docs:
+        if d.get('kind') == 'VarDecl' and d.get('name') in CELLS:
+            defs[d['name']] = d['type']['qualType']
+        if d.get('kind') == 'CXXRecordDecl' and d.get('name') == 'SignalHandler':
+            for c in kids(d):
+                if c.get('kind') == 'VarDecl' and c.get('name') in CELLS:
+                    incls[c['name']] = c['type']['qualType']
+    out = []
+    for name in ['stop_', 'handler_', 'data_', 'signal_message_ptr_', 'signal_message_size_']:
+        if name not in defs or name not in incls:
+            raise TranslateError('static cell %s: definition or in-class declaration not found' % name)
+        import re as _re
+        norm = lambda q: _re.sub(r'\b(mp|internal|std)::', '', q).replace(' ', '')
+        if norm(defs[name]) != norm(incls[name]):
+            raise TranslateError('static cell %s declared as %r in the class but defined as %r' % (name, incls[name], defs[name]))
+        q = defs[name]
+        toks = q.replace('*', ' * ').split()
+        vol = 'volatile' in toks
+        base = ' '.join(t for t in toks if t != 'volatile')
+        atomic = base.startswith('mp::internal::atomic<') or base.startswith('std::atomic<') or base.startswith('atomic<')
+        out.append('(.%s, ⟨%s, %s, %s⟩)' % (CELLS[name], 'true' if vol else 'false', 'true' if atomic else 'false', lean_str(base)))
+    return out
+
+
 def lean_list(name, ty, items, doc):
     body = '[]' if not items else '[\n' + ',\n'.join('    ' + i for i in items) + ']'
     return '/-- %s -/\ndef %s : List %s :=\n  %s\n' % (doc, name, ty, body)
@@ -376,6 +404,7 @@ def main():
             lean_list('dtor', 'Stmt', tr_simple(dtor), 'SignalHandler::~SignalHandler(): the body'),
             lean_list('setHandler', 'Stmt', tr_simple(seth), 'SignalHandler::SetHandler(InterruptHandler handler, void *data)'),
             lean_list('handleSigInt', 'HStmt', tr_handler(hsi), 'SignalHandler::HandleSigInt(int sig)'),
+            lean_list('cellDecls', '(Cell × CellDecl)', cell_decls(docs), 'declared types of the static cells (volatile?, atomic?, type without `volatile`)'),
             '/-- SignalHandler::Stop() const -/\ndef stopFn : StopFn := %s\n' % tr_stop(stop),
             '/-- BasicSolver::Stop() const (the interrupter when no SignalHandler is installed) -/\ndef basicStop : Bool := %s\n' % basic_stop,
             lean_list('basicSetHandler', 'Stmt', basic_set, 'BasicSolver::SetHandler(InterruptHandler, void *)'),
